@@ -28,6 +28,9 @@ func init() {
 }
 
 func runC06(w *World, r *Report) {
+	hrTimeoutAboveTTL(w, r, "R8")
+	hrScoreIsPriority(w, r, "R5")
+	hrAddRequestCountsFirst(w, r, "R3")
 	hrQueuePriority(w, r, "R5")
 	hrWatchListCount(w, r, "R6")
 	la := NewLockAn(w)
